@@ -559,7 +559,7 @@ PROPERTIES = {
     "C04": P("other", "recurrence steps proved complete (Kani + Verus); on bounded strings: optimal score <= brute-force maximum over all alignments, >= naive full-matrix two-matrix recurrence, one-char needle == true optimum (both bonus configurations), prefer_prefix raises by 0..=8.",
              "contract-based deductive verification (Kani; Verus for steps; bounded strings with brute-force/naive-recurrence spec functions)",
              "Recurrence steps proved complete; optimality relations on bounded strings." + BOUNDED_NOTE),
-    "C05": P("other", "bounded contract checking: substring (leftmost occurrence with highest first-char bonus), prefix/postfix/exact with the whitespace rule, as postconditions of the real functions and entry points, haystack <= 5-6, needle <= 3-4, all bytes.",
+    "C05": P("other", "bounded contract checking: substring (leftmost occurrence with highest first-char bonus), prefix/postfix/exact with the whitespace rule, as postconditions of the real functions and entry points (plus the callee-level contract of substring_match_ascii_with_prefilter under its call-site precondition), haystack <= 5-6, needle <= 3-4, all bytes.",
              "contract-based deductive verification (Kani contract harnesses, bounded strings)",
              "Substring/prefix/postfix/exact contracts against the documented relations." + BOUNDED_NOTE,
              assumptions=["U+000B is whitespace for char::is_whitespace (needle side) but not for u8::is_ascii_whitespace (ASCII haystack side); inputs containing it are excluded from the prefix/postfix/exact entry contracts"]),
@@ -567,7 +567,7 @@ PROPERTIES = {
              "contract-based deductive verification (Kani: complete arithmetic contracts + bounded sequential data-structure contract)",
              "partial: sequential content only." + BOUNDED_NOTE,
              note="Trusted: Kani/CBMC; atomics executed sequentially by CBMC; rayon/parking_lot not reached.", assumptions=["single thread"]),
-    "C10": P("other", "slab layout proved for ALL sizes that pass alloc's guards and alloc's guards themselves (complete, Kani); prefix-penalty arithmetic for all start positions (complete); u16 headroom on the matrix path by Verus induction; panic/overflow/bounds freedom by CBMC's built-in checks inside every bounded string-level harness; history independence as three clauses: arbitrary prior scratch content gives the same result, a second call on a used matcher agrees, and every entry point leaves the configuration untouched (frame condition).",
+    "C10": P("other", "slab layout proved for ALL sizes that pass alloc's guards and alloc's guards themselves (complete, Kani); prefix-penalty arithmetic for all start positions (complete); u16 headroom on the matrix path by Verus induction; panic/overflow/bounds freedom by CBMC's built-in checks inside every bounded string-level harness; history independence as three clauses: arbitrary prior scratch content gives the same result, a second call on a used matcher agrees, and every entry point leaves the configuration untouched (frame condition); contract of MatcherDataView::setup over arbitrary earlier slab content (every row offset the later phases index with is written).",
              "contract-based deductive verification (Kani complete layout/guard contracts + Verus induction + bounded string-level contracts with CBMC safety checks)",
              "Layout/guards/arithmetic complete; totality and history independence on bounded strings." + BOUNDED_NOTE),
     "C11": P("other", "partial: drop-exactly-once decided for bounded sequential non-panicking histories of one vector (extend with honest/short iterators, push, drop), over-reporting iterators must panic; the history with non-contiguous buckets (the one that exposed the Drop defect) takes ~10 min and runs in the thorough tier only. Panicking callbacks, concurrent drops, restart are not decided.",
